@@ -97,6 +97,22 @@ def run(ctx):
     known = ctx.finding_keys()
     c04 = [f for f in load_findings()["findings"] if f["property"] == "C04"]
     bad_triples = {tuple(t) for f in c04 for t in f.get("triples", [])}
+    # ---- the table-derived exclusion set must be covered by the listed findings (as in C04); a new triple is replayed as a full round trip
+    from props import c04
+    bad, blog = c04.compute_bad(ctx) if ok else (None, "")
+    if bad is not None:
+        new = [t for t in bad if t not in bad_triples]
+        ctx.obligation("every (parent, slot, child) triple where the formatter omits parentheses the parser needs is a listed finding", not new, new[:10])
+        for (P, s, C) in new[:25]:
+            tree = l1.make_depth2(P, s, C)
+            sql = "select " + l1.full_sql(tree) + " from t"
+            r = roundtrip("common_parser", sql)
+            ctx.count(1)
+            if r and r["fail"]:
+                ctx.violation("input", dict(entry="common_parser", sql=sql, tree=short(r["tree"], 600), formatted=r["text"], observed=r["fail"], reparsed=short(r.get("back"), 600),
+                                            requires="parse(format(parse(sql))) == parse(sql)", triple=[P, s, C]))
+            else:
+                ctx.violation("obligation", dict(triple=[P, s, C], sql=sql, broken="edges_ok' fails for this edge in some reachable context (Model/L1.bad_triples); the depth-2 statement itself round-trips"), no_input=True)
     rnd = ctx.rng("c03")
     g = gens.G(rnd, null_rate=0.04, max_depth=2)
     n_ok = n_haz = 0
